@@ -36,8 +36,9 @@ type c20Reads struct {
 	D2     W             `json:"d2,omitempty"`
 	More   []W           `json:"more,omitempty"` // origin layers: the layers after the second one
 	Calls  []c20lib.Call `json:"calls"`
-	Pre    []c20lib.Fail `json:"pre,omitempty"` // serialisations of other documents that fail part-way, performed before (and once more after) the reads
-	Pad    int           `json:"pad,omitempty"` // > 0: D1 additionally holds a string leaf of this many bytes (c20lib.Padded)
+	Pre    []c20lib.Fail `json:"pre,omitempty"`  // serialisations of other documents that fail part-way, performed before (and once more after) the reads
+	Pad    int           `json:"pad,omitempty"`  // > 0: D1 additionally holds a string leaf of this many bytes (c20lib.Padded)
+	Long   int           `json:"long,omitempty"` // > 0: D1 additionally holds a list of this many items (c20lib.Lengthened)
 }
 
 // c20Pads: string leaves that make the serialised / loaded text just under, at and just over 512 B, 4 KiB, 64 KiB, 1 MiB.
@@ -53,7 +54,7 @@ type c20Writer struct {
 
 func init() {
 	register(&Prop{ID: "C20", Run: c20Run,
-		Rule: "documents from the shared generator with empty containers / empty lists at every depth (PEmpty raised), lists of 0-7 and 10-13 items built by successive Append calls (so lengths 3, 5, 6, 7, 10-13 have spare capacity), one document in five with 1-3 COMPOSITE leaves (a leaf holding a []interface{} / map[string]interface{} / map[interface{}]interface{} value, nested in each other, put over an existing leaf or under a new key at any depth: a leaf may hold any Go value), obtained as freshly built, loaded via FromReader, FromMap, merged (both list strategies), cloned, sealed, as two-layer overlays whose upper layer is unrelated, a near copy of the lower one, or an addendum to it (below the same keys some lists overridden by 1-3 additional items, some scalars overridden), and as overlays of 3-5 layers generated together position by position (origin `layers`: below shared keys every layer independently holds nothing / null / a scalar / a list / a container, the containers several layers hold at one key generated together again, so the layers overlap and disagree in kind at every depth - null or leaf then container then container again, container then null then container, ... - with empty containers at every depth); the Search calls (container and overlay) pass a predicate with state of its own (it records every value it is shown in plain variables of the calling goroutine, the way callers collect matches - what it was shown is part of the observation); read calls drawn from the whole read API with paths that exist, paths that do not, and list-index paths (flattened paths of the document with [i] groups, small out-of-range indexes, and indexes far out of range that no earlier round of the run has used), Merged with the default and the ListsMergeAppend option, plus ContainerBuilder.Merge(other, opts) with the document as receiver and as `other` (both strategies; other = unrelated / near copy / addendum). reads: fingerprint (reflection incl. unexported fields, nil-vs-empty maps, slice len/cap and the backing array between len and cap) before/after every call; every view handed out (merged view, layer snapshot, clone, merge result) is retained and must be unchanged after all later reads; for overlays the fingerprint is also taken per layer, and after all reads every layer's snapshot content must equal that of the same layer of an identically built overlay nobody has read. race: 16 goroutines x 3-8 random read calls on a fresh instance per round under `go build -race` (200 rounds quick, 5000 thorough); the concurrent readers are the first to read the instance and the first in the process to use the round's paths / child names - the single-threaded reference observations are computed only afterwards, on another fresh instance - so anything a read path initialises or memoises lazily (in the document or in package-level state) is initialised under concurrency. identity: one Merge call in seven merges the document (or a container inside it) with ITSELF (receiver and other are one object). size: every fiftieth reads case and every fortieth race round the document additionally holds a string leaf of 470 B ... 1 MiB + 30 B (the text FromReader loads / Serialize writes is just under, at, just over 512 B, 4 KiB, 64 KiB, 1 MiB; multi-byte characters every few bytes). failure first (every third reads case, every second race round): 1-3 serialisations of OTHER documents that fail part-way precede the reads / are performed after the 16 goroutines have been created and before they are released - a float leaf JSON cannot represent (NaN, +Inf, -Inf; put by the builder or loaded from YAML), a leaf whose own MarshalJSON / MarshalYAML reports an error (placed early, late or deep in the document), an io.Writer failing after 0 / 1 / a few / hundreds of bytes, through Container.Serialize or the single-layer OverlayDocument.Serialize, with both default encoders; in those cases every call sequence contains a Serialize of the document under test (both encoders), single-threaded observations must equal the ones an identically built instance gave before any serialisation had failed, and a failing Serialize leaves the fingerprint of its own document unchanged. Non-trivial: the document has at least one composite child. distinct = distinct canonical case JSON.",
+		Rule: "documents from the shared generator with empty containers / empty lists at every depth (PEmpty raised), lists of 0-7 and 10-13 items built by successive Append calls (so lengths 3, 5, 6, 7, 10-13 have spare capacity), one document in five with 1-3 COMPOSITE leaves (a leaf holding a []interface{} / map[string]interface{} / map[interface{}]interface{} value, nested in each other, put over an existing leaf or under a new key at any depth: a leaf may hold any Go value), obtained as freshly built, loaded via FromReader, FromMap, merged (both list strategies), cloned, sealed, as two-layer overlays whose upper layer is unrelated, a near copy of the lower one, or an addendum to it (below the same keys some lists overridden by 1-3 additional items, some scalars overridden), and as overlays of 3-5 layers generated together position by position (origin `layers`: below shared keys every layer independently holds nothing / null / a scalar / a list / a container, the containers several layers hold at one key generated together again, so the layers overlap and disagree in kind at every depth - null or leaf then container then container again, container then null then container, ... - with empty containers at every depth); the Search calls (container and overlay) pass a predicate with state of its own (it records every value it is shown in plain variables of the calling goroutine, the way callers collect matches - what it was shown is part of the observation); read calls drawn from the whole read API with paths that exist, paths that do not, and list-index paths (flattened paths of the document with [i] groups, small out-of-range indexes, and indexes far out of range that no earlier round of the run has used), Merged with the default and the ListsMergeAppend option, plus ContainerBuilder.Merge(other, opts) with the document as receiver and as `other` (both strategies; other = unrelated / near copy / addendum). reads: fingerprint (reflection incl. unexported fields, nil-vs-empty maps, slice len/cap and the backing array between len and cap) before/after every call; every view handed out (merged view, layer snapshot, clone, merge result) is retained and must be unchanged after all later reads; for overlays the fingerprint is also taken per layer, and after all reads every layer's snapshot content must equal that of the same layer of an identically built overlay nobody has read. race: 16 goroutines x 3-8 random read calls on a fresh instance per round under `go build -race` (200 rounds quick, 5000 thorough); the concurrent readers are the first to read the instance and the first in the process to use the round's paths / child names - the single-threaded reference observations are computed only afterwards, on another fresh instance - so anything a read path initialises or memoises lazily (in the document or in package-level state) is initialised under concurrency. identity: one Merge call in seven merges the document (or a container inside it) with ITSELF (receiver and other are one object). size: every fiftieth reads case and every fortieth race round the document additionally holds a string leaf of 470 B ... 1 MiB + 30 B (the text FromReader loads / Serialize writes is just under, at, just over 512 B, 4 KiB, 64 KiB, 1 MiB; multi-byte characters every few bytes). long lists: after the 200 (5000) race rounds come 8 (60) further rounds, and after everything else a few reads cases, whose document additionally holds a LIST of 20 ... 2500 and more items (ints, every 97th a small container, every 101st a nested list; c20lib.Lengthened) - an inventory, a table of records; the lengths grow from round to round (just over 16, 32, ... 2048, then a few items more each time), so that each of these rounds is the first in the process to read a list that long (whatever a read path sizes, caches or grows by list length or index is sized under concurrency, like the paths and child names above); every sequence of such a round may also address the list itself (items at its start, middle, end and past its end, Items / Size / AsSlice / Clone of it). failure first (every third reads case, every second race round): 1-3 serialisations of OTHER documents that fail part-way precede the reads / are performed after the 16 goroutines have been created and before they are released - a float leaf JSON cannot represent (NaN, +Inf, -Inf; put by the builder or loaded from YAML), a leaf whose own MarshalJSON / MarshalYAML reports an error (placed early, late or deep in the document), an io.Writer failing after 0 / 1 / a few / hundreds of bytes, through Container.Serialize or the single-layer OverlayDocument.Serialize, with both default encoders; in those cases every call sequence contains a Serialize of the document under test (both encoders), single-threaded observations must equal the ones an identically built instance gave before any serialisation had failed, and a failing Serialize leaves the fingerprint of its own document unchanged. Non-trivial: the document has at least one composite child. distinct = distinct canonical case JSON.",
 		Assumptions: []string{"the race detector only observes the schedules that occur; the schedule quantifier is carried by the write-freedom theorem over the extracted effect table",
 			"effect extractor rules (syntactic points-to, freshness, allow-list of external calls, caller-supplied callbacks do not write) are trusted and validated dynamically here",
 			"Go memory model and runtime"}})
@@ -518,6 +519,22 @@ func c20Shrink(kind string, raw []byte) [][]byte {
 	if len(out) > 200 {
 		out = out[:200]
 	}
+	// a shorter long list (candidates must be shorter as text: fewer digits)
+	if m, ok := v.(map[string]any); ok {
+		if f, ok := m["long"].(float64); ok && f >= 10 {
+			var pre [][]byte
+			for _, n := range []int{9, 99, 999, 9999} {
+				if float64(n) < f {
+					m["long"] = n
+					if b, err := json.Marshal(v); err == nil && len(b) < len(raw) {
+						pre = append(pre, b)
+					}
+				}
+			}
+			m["long"] = f
+			out = append(pre, out...)
+		}
+	}
 	return append(out, shrinkJSON(kind, raw)...)
 }
 
@@ -592,6 +609,26 @@ func c20Run(c *Ctx) {
 		}
 		batch = append(batch, cs)
 	}
+	// long lists: further rounds (after the ordinary ones, which stay what they were) whose document holds a list
+	// longer than any list read so far in the process
+	nLong, long := 8, 0
+	if c.Thorough() {
+		nLong = 60
+	}
+	for k := 0; k < nLong; k++ {
+		if k < len(c20LongLens) {
+			long = c20LongLens[k] + r.Intn(c20LongLens[k]/4)
+		} else {
+			long += 1 + r.Intn(8)
+		}
+		o := pick(r, c20Origins)
+		d1, d2, more := c20GenDocs(r, g, o)
+		cs := c20lib.Case{Origin: o, D1: d1, D2: d2, More: more, Repeat: 2, Long: long}
+		for gi := 0; gi < 16; gi++ {
+			cs.Seqs = append(cs.Seqs, c20WithLongCalls(r, o, long, c20GenCalls(r, g, o, d1, d2, 3+r.Intn(6), more...)))
+		}
+		batch = append(batch, cs)
+	}
 	c.Tick()
 	// a witness search (c.deadline set) is bounded: the batch gets what is left of its budget (at least 30 s)
 	batchTimeout := 15 * time.Minute
@@ -612,6 +649,9 @@ func c20Run(c *Ctx) {
 		if i >= 0 && i < len(batch) && k < 6 {
 			cs := batch[i]
 			cs.Repeat = 40
+			if cs.Long > 0 {
+				cs.Repeat = 10 // thousands of items under the race detector: keep the re-run (and its shrinking) affordable
+			}
 			c.Do("race", cs)
 		}
 	}
@@ -624,6 +664,47 @@ func c20Run(c *Ctx) {
 		c.Tick()
 		c.Do("race", batch[i])
 	}
+	// long lists, single-threaded: the fingerprint of a document with a list of hundreds of items around every read
+	for i := 0; i < c.N(6); i++ {
+		c.Tick()
+		o := pick(r, c20Origins)
+		d1, d2, more := c20GenDocs(r, g, o)
+		n := pick(r, []int{17, 33, 130, 260, 600, 1030}) + r.Intn(40)
+		c.Do("reads", c20Reads{Origin: o, D1: d1, D2: d2, More: more, Long: n,
+			Calls: c20WithLongCalls(r, o, n, c20GenCalls(r, g, o, d1, d2, 2+r.Intn(6), more...))})
+	}
+}
+
+// c20LongLens: the lengths of the long lists of the first rounds that have one (each plus up to a quarter).
+var c20LongLens = []int{20, 40, 70, 130, 260, 520, 1030, 2050}
+
+// c20WithLongCalls: the sequence, in two cases out of three with one or two calls that address the long list itself
+// (c20lib.LongKey, n items) put in at random positions.
+func c20WithLongCalls(r *rand.Rand, origin string, n int, seq []c20lib.Call) []c20lib.Call {
+	for k := []int{0, 1, 2}[r.Intn(3)]; k > 0; k-- {
+		idx := pick(r, []int{0, 1, n / 2, n - 1, n - 1, n, n + 1 + r.Intn(50)})
+		p := fmt.Sprintf("%s[%d]", c20lib.LongKey, idx)
+		var c c20lib.Call
+		if origin == "overlay" || origin == "layers" {
+			c = c20lib.Call{M: pick(r, []string{"OverlayDocument.LookupAny", "OverlayDocument.Lookup"}), Path: p, Layer: "zbase"}
+		} else {
+			switch r.Intn(4) {
+			case 0:
+				c = c20lib.Call{M: "Container.Lookup", Path: p}
+			case 1:
+				c = c20lib.Call{M: pick(r, []string{"List.Items", "List.Size", "List.AsSlice"}), Path: c20lib.LongKey}
+			case 2:
+				c = c20lib.Call{M: pick(r, []string{"Node.Clone", "Node.Equals"}), Path: c20lib.LongKey}
+			default:
+				c = c20lib.Call{M: "Container.Child", Path: c20lib.LongKey}
+			}
+		}
+		at := r.Intn(len(seq) + 1)
+		seq = append(seq, c)
+		copy(seq[at+1:], seq[at:])
+		seq[at] = c
+	}
+	return seq
 }
 
 // ---------------------------------------------------------------- the -race program
@@ -836,6 +917,10 @@ func c20EvalReads(c *Ctx, p c20Reads) {
 		c.Dist(fmt.Sprintf("reads:large-document(string leaf of %d bytes)", p.Pad))
 		p.D1 = c20lib.Padded(p.D1, p.Pad)
 	}
+	if p.Long > 0 {
+		c.Dist("reads:document-with-long-list(" + c20LongBucket(p.Long) + " items)")
+		p.D1 = c20lib.Lengthened(p.D1, p.Long)
+	}
 	out, txt := guard(func() {
 		// failure first: what the calls observe on an identically built instance BEFORE any serialisation has failed,
 		// then serialisations of other documents that fail part-way (a failed read does not write either: the
@@ -1004,6 +1089,15 @@ func c20KindConflict(layers []W) bool {
 	return false
 }
 
+func c20LongBucket(n int) string {
+	for _, t := range []int{16, 64, 256, 1024, 4096} {
+		if n <= t {
+			return fmt.Sprintf("<=%d", t)
+		}
+	}
+	return ">4096"
+}
+
 func c20Clip(s string) string {
 	if len(s) > 1500 {
 		return s[:1500] + "…"
@@ -1128,6 +1222,9 @@ func c20EvalRace(c *Ctx, p c20lib.Case) {
 	if p.Pad > 0 {
 		c.Dist("race-case:large-document")
 	}
+	if p.Long > 0 {
+		c.Dist("race-case:long-list(" + c20LongBucket(p.Long) + " items)")
+	}
 	res := c20RunRace(c, []c20lib.Case{p}, 2*time.Minute)
 	if res.err != "" && res.exit != 66 {
 		c.Direct("race-program-runs", false, res.err)
@@ -1137,7 +1234,7 @@ func c20EvalRace(c *Ctx, p c20lib.Case) {
 	c.Direct("observations-equal-single-threaded", len(res.mismatch) == 0, res.mismatch)
 	// the same sequences single-threaded leave the fingerprint alone (ties the race to a write)
 	if !c.probe {
-		s := c20lib.Build(p.Origin, c20lib.Padded(p.D1, p.Pad), p.D2, p.More...)
+		s := c20lib.Build(p.Origin, c20lib.Enlarged(p.D1, p.Pad, p.Long), p.D2, p.More...)
 		var subj any = s.C
 		if s.O != nil {
 			subj = s.O
